@@ -853,7 +853,9 @@ class CompileTemplates(VC):
     expect_paths_min = 4
 
     def replay(self, w):
-        return replay_native(w)
+        v1, d1 = replay_native(w)
+        v2, d2 = scenario_replay("recompile_same_path")(w)
+        return (bool(v1 or v2), d1 if v1 else d2)
 
     def concretize(self, model, pre, out):
         return {"zip": self.zip_mode, "ignore_errors": str(model.eval(self.ignore.t, True))}
